@@ -685,12 +685,40 @@ type controllerSet struct {
 	strategy string
 }
 
-func newControllerSet(w *world2, scheme *runtime.Scheme, strategy string) *controllerSet {
+// lagClient: the manager's cached client of the management cluster with informer lag for some phase objects: a Get
+// of a key listed in [stale] answers with the old incarnation from the cache (no request reaches the API server, so
+// nothing is logged); every other request goes to the server. The uncached reader handed to the controllers is the
+// server itself. Only used in teardown-only scenarios, in which correct code reads phase objects uncached.
+type lagClient struct {
+	*cluster
+	stale map[storeKey]map[string]any
+}
+
+func (c *lagClient) Get(ctx context.Context, key client.ObjectKey, obj client.Object, opts ...client.GetOption) error {
+	if gvk, err := c.cluster.GroupVersionKindFor(obj); err == nil {
+		if m, ok := c.stale[storeKey{gvk.Group, gvk.Kind, key.Namespace, key.Name}]; ok {
+			return runtime.DefaultUnstructuredConverter.FromUnstructured(deepCopyMap(m), obj)
+		}
+	}
+	return c.cluster.Get(ctx, key, obj, opts...)
+}
+
+func newControllerSet(w *world2, scheme *runtime.Scheme, strategy string, stale []aOSP) *controllerSet {
 	cs := &controllerSet{w: w, strategy: strategy}
 	mgCache := &fakeCache{s: w.mg.Store}
-	// (Cluster)ObjectSet controllers: cmd/package-operator-manager: client, dynamic cache, uncached client of their own cluster
-	cs.set = objectsets.NewObjectSetController(w.mg, logr.Discard(), scheme, mgCache, w.mg, nil, w.mg.RESTMapper())
-	cs.cset = objectsets.NewClusterObjectSetController(w.mg, logr.Discard(), scheme, mgCache, w.mg, nil, w.mg.RESTMapper())
+	var cached client.Client = w.mg
+	if len(stale) > 0 {
+		lc := &lagClient{cluster: w.mg, stale: map[storeKey]map[string]any{}}
+		for _, p := range stale {
+			if m, err := p.concrete(); err == nil {
+				lc.stale[phaseKey(p.aOID)] = m
+			}
+		}
+		cached = lc
+	}
+	// (Cluster)ObjectSet controllers: cmd/package-operator-manager: client (cached), dynamic cache, uncached client of their own cluster
+	cs.set = objectsets.NewObjectSetController(cached, logr.Discard(), scheme, mgCache, w.mg, nil, w.mg.RESTMapper())
+	cs.cset = objectsets.NewClusterObjectSetController(cached, logr.Discard(), scheme, mgCache, w.mg, nil, w.mg.RESTMapper())
 	if strategy == "annot" {
 		// cmd/remote-phase-manager/main.go:211-227: (log, scheme, dc (target), uncachedTargetClient, class,
 		// managementClusterClient, targetClient, targetMapper)
@@ -820,6 +848,8 @@ type delegationScenario struct {
 	Twin     bool     `json:"twin"`
 	// OneCluster: run the multi-cluster constructors against a single recording server (management = target)
 	OneCluster bool `json:"one_cluster,omitempty"`
+	// StalePhases: old incarnations of phase objects that the ObjectSet controllers' cached client still serves
+	StalePhases []aOSP `json:"stale_phases,omitempty"`
 }
 
 type delegationRun struct {
@@ -1078,7 +1108,7 @@ func runDelegation(sc *delegationScenario, local bool) (*delegationRun, error) {
 	} else {
 		os.Unsetenv(constants.ForceAdoptionEnvironmentVariable)
 	}
-	cs := newControllerSet(s, scheme, sc.Strategy)
+	cs := newControllerSet(s, scheme, sc.Strategy, sc.StalePhases)
 	run := &delegationRun{Steps: []aStep{}, Quiet: true}
 	after := func() {
 		if !sc.Kubelet {
